@@ -1,7 +1,7 @@
 (* Property C09: forever jobs are never waited for and never outlive the run.
    Only property theorems here. Model R, level 0 (timing statements: see C12/DESIGN). *)
 From AJ Require Import Common.Util Run.RModel Run.RFacts Run.RFacts2 Run.RInv Run.RInv4 Run.RInv5 Run.RMon Run.RProps1
-  Run.RProps2 Run.RProps3 Props.RExample.
+  Run.RProps2 Run.RProps3 Props.RExample Run.RSchedDef Run.RSched Run.RSchedF.
 
 (* The main wake whose report completes the non-forever jobs leaves the loop at once with the
    success path: in the state after it, everything still pending is forever (third conjunct of
@@ -61,6 +61,58 @@ Print Assumptions C09_timing.
 
 (* non-vacuity: in the recorded run the forever job 8 is cancelled when the last regular job
    finishes, and the run then succeeds *)
+(* the property in closed form.  In a tree without window (forever atomic jobs that nobody requires,
+   handlers and cancellations of any finite duration, timeouts that the schedule does not reach, any
+   nesting depth; every scheduler that has jobs has a non-forever one), until a critical job raises
+   and away from ties (no_tieF: no forever job becomes eligible, or would end, exactly at the instant
+   at which the last non-forever job of its scheduler ends):
+   - the main loop of scheduler n ends at M = MF c S E n, the instant at which its last non-forever job
+     ends, however long its forever jobs would go on;
+   - a forever job that ends by itself strictly before M is an ordinary completion; every other one
+     ("cut") runs from S f to M, is cancelled at M, handles the cancellation for j_cdur and is
+     Cancelled from M + j_cdur on; after M no forever job of n is Running, Idle or Created;
+   - the run of n is over at M + (longest cancellation among the cut jobs) + shutdown phase. *)
+Theorem C09_runs_on_scheduleF : forall c S E h s,
+  wf c = true -> plainF c = true -> is_scheduleF c S E -> no_tieF c S E -> slackF c S E ->
+  Reach 3 c h s -> calm c E s ->
+  forall x, x < njobs c -> x <> 0 -> on_scheduleF c S E s x.
+Proof. exact runs_on_scheduleF. Qed.
+Print Assumptions C09_runs_on_scheduleF.
+
+Theorem C09_forever_jobs_cut_off : forall c S E h s,
+  wf c = true -> plainF c = true -> is_scheduleF c S E -> no_tieF c S E -> slackF c S E ->
+  Reach 3 c h s -> calm c E s ->
+  forall n f, n < njobs c -> j_sched (jc c n) = true -> In f (members c n) -> fvr c f = true ->
+    ((MF c S E n < now s)%N ->
+       st (Jb s f) <> Running /\ st (Jb s f) <> Idle /\ st (Jb s f) <> Created /\
+       (cut c S E f = true -> st (Jb s f) = Cancelling \/ st (Jb s f) = Cancelled) /\
+       (cut c S E f = false -> is_done (st (Jb s f)) = true)) /\
+    ((S f < now s)%N -> (now s < MF c S E n)%N -> cut c S E f = true -> st (Jb s f) = Running).
+Proof. exact forever_jobs_cut_off. Qed.
+Print Assumptions C09_forever_jobs_cut_off.
+
+Theorem C09_phases_on_scheduleF : forall c S E h s,
+  wf c = true -> plainF c = true -> is_scheduleF c S E -> no_tieF c S E -> slackF c S E ->
+  Reach 3 c h s -> calm c E s ->
+  forall n, n < njobs c -> j_sched (jc c n) = true ->
+    let M := MF c S E n in let T := tidy_len c S E n in
+    (ph (Rn s n) = PIdle -> (now s <= S n)%N) /\
+    (ph (Rn s n) = PMain -> (S n <= now s)%N /\ (now s <= M)%N) /\
+    (ph (Rn s n) = PTidy WSuccess -> (M <= now s)%N /\ (now s <= M + T)%N) /\
+    (ph (Rn s n) = PShut WSuccess -> (M + T <= now s)%N /\ (now s <= M + T + shut_len c n)%N) /\
+    (ph (Rn s n) = POver -> (E n <= now s)%N) /\
+    E n = (M + T + shut_len c n)%N /\ okph (ph (Rn s n)) /\
+    (ph (Rn s n) = PMain -> forall T0, j_timeout (jc c n) = Some T0 -> expi (Rn s n) = Some (S n + T0)%N).
+Proof. exact phases_on_scheduleF. Qed.
+Print Assumptions C09_phases_on_scheduleF.
+
+(* non-vacuity: RSchedF.ExampleF, root{a: 2 s; f forever never-ending, cancellation 1 s; g forever 1 s}:
+   its history is accepted at level 3, the tables pass the three boolean checks *)
+Example C09_schedule_nonvacuous :
+  wf RSchedF.ExampleF.ex_c = true /\ plainF RSchedF.ExampleF.ex_c = true /\
+  accept 3 RSchedF.ExampleF.ex_c RSchedF.ExampleF.ex_h = true.
+Proof. repeat split; vm_compute; reflexivity. Qed.
+
 Example C09_nonvacuous :
   accept 3 ex_cfg ex_hist = true /\ j_forever (jc ex_cfg 8) = true /\
   In (ECancelHit 8) ex_hist /\ mon_ok chk_exit ex_cfg ex_hist = true.
